@@ -8,6 +8,7 @@
 # violation: "no exported function brings the process down" (stderr kept as replay).
 set -u
 ROOT="$(cd "$(dirname "${BASH_SOURCE[0]}")" && pwd)"
+if [ "${1:-}" = "--replay" ] && [ -n "${2:-}" ]; then REPLAY_FILE="$(cd "$(dirname "$2")" 2>/dev/null && pwd)/$(basename "$2")"; fi
 export VERIF_ROOT="$ROOT"
 export GOFLAGS=-mod=mod GOPROXY=off GOSUMDB=off GOTOOLCHAIN=local GOWORK=off
 export VERIF_REPO="${VERIF_REPO:-/repo}"
@@ -30,7 +31,7 @@ build() { # build <output> <extra go build flags...>
   fi
 }
 if [ "${1:-}" = "--replay" ]; then
-  build "$BIN/verif"; exec "$BIN/verif" --replay "$2"
+  build "$BIN/verif"; exec "$BIN/verif" --replay "${REPLAY_FILE:-$2}"
 fi
 ID="${1:?usage: run.sh <ID> <quick|thorough>}"; TIER="${2:-quick}"
 build "$BIN/verif"
